@@ -1,10 +1,22 @@
-import OrdModel.Index.Run
-import OrdModel.Index.Valid
+import OrdModel.Proofs.IndexMiscNoPanicChain
+import OrdModel.Proofs.IndexMiscNoPanicSats
 import OrdModel.Index.PanicSitesExpected
 import OrdModel.Generated.PanicSites
 /-
 C16 — indexing a valid chain never fails.  Property statements only; lemmas are in
 `OrdModel/Proofs/IndexMiscNoPanic*.lean`, the validity predicate in `OrdModel/Index/Valid.lean`.
+
+Full statement (NOT proved yet; see notes/C16.md for what is missing):
+
+  theorem c16_no_failure (chain : List Block) (h : Valid.validChain chain = true) (cfg : Cfg) :
+      (∀ s, run cfg chain ≠ .panic s) ∧ (∀ e, run cfg chain ≠ .err e)
+
+What is proved: for configurations with only the rune index on, a valid chain never ends in an
+`err` and can panic only at the three sites of the rune updater whose safety is supply
+conservation (C08) — every other failure site of the rune updater (the edict-output assert, the
+pointer assert, the node-answer unwraps of `tx_commits_to_rune`, `Lot` underflow in `allocate`,
+`allocated[output]` indexing) is discharged from `validChain`.  The same is proved per
+transaction for an arbitrary index state.
 -/
 namespace Ord.Index
 open Outcome
@@ -13,5 +25,92 @@ open Outcome
 text of /repo on this run equals the inventory the model was written against (each entry of
 which is annotated with its model `panic` branch in `PanicSitesExpected.lean`). -/
 theorem c16_gen_panic_sites : PanicSites.sites = PanicSitesExpected.expected := by rfl
+
+/-- One transaction through the rune updater, **any** index state: if the transaction satisfies
+the stateless rules of `validChain` (edict outputs and pointer in range as `Runestone::decipher`
+guarantees, node answers present), `index_runes` returns no error and can panic only at a
+supply-conservation site. -/
+theorem c16_rune_tx_partial (st : State) (blk : Block) (txIndex : Nat) (tx : Tx) (burned : Balances)
+    (h : RuneSafe blk.height tx) :
+    (∀ e, indexRunesTx st blk txIndex tx burned ≠ .err e) ∧
+    (∀ s, indexRunesTx st blk txIndex tx burned = .panic s → s ∈ runeResidualSites) :=
+  have w := indexRunesTx_within st blk txIndex tx burned h.1 h.2.1 h.2.2
+  ⟨fun _ => w.not_err, fun _ hs => w.panic_mem hs⟩
+
+/-- `_partial`: only for configurations in which inscriptions, sats and addresses are not indexed
+(`applyBlock` then runs the rune updater only), and up to the three C08 sites. -/
+theorem c16_no_failure_runes_partial (chain : List Block) (h : Valid.validChain chain = true)
+    (cfg : Cfg) (hcfg : cfg.runesOnly) :
+    (∀ e, run cfg chain ≠ .err e) ∧
+    (∀ s, run cfg chain = .panic s → s ∈ runeResidualSites) :=
+  have w := runFrom_runesOnly_within cfg hcfg chain {} (validChain_runeSafe chain h)
+  ⟨fun _ => w.not_err, fun _ hs => w.panic_mem hs⟩
+
+/-- Clause (b), all inputs: `index_transaction_sats` never hits `expect("insufficient inputs for
+transaction outputs")` when the outputs claim at most the value of the input ranges. -/
+theorem c16_sats_sufficient (values : List Nat) (ranges : List (Nat × Nat))
+    (h : values.sum ≤ rangesValue ranges) : indexTransactionSats values ranges ≠ none := by
+  obtain ⟨t, ht⟩ := indexTransactionSatsAux_some values 0 ranges h
+  simp [indexTransactionSats, ht]
+
+example : indexTransactionSats [3, 4] [(10, 12), (20, 30)] ≠ none :=
+  c16_sats_sufficient _ _ (by decide)
+/-- the hypothesis is needed: outputs above the input value do hit the `expect` -/
+example : indexTransactionSats [3, 4] [(10, 12), (20, 24)] = none := by decide
+
+/-- Clause (e), all inputs: `calculate_sat`'s `unreachable!()` is not reached (and nothing else
+fails) when the offset lies inside the input ranges. -/
+theorem c16_calculate_sat_ok (ranges : List (Nat × Nat)) (offset : Nat) (h : offset < rangesValue ranges) :
+    (∀ s, calculateSat ranges 0 offset ≠ .panic s) ∧ (∀ e, calculateSat ranges 0 offset ≠ .err e) := by
+  obtain ⟨n, hn⟩ := calculateSat_ok ranges 0 offset (Nat.zero_le _) (by omega)
+  rw [hn]
+  exact ⟨fun _ => by simp, fun _ => by simp⟩
+
+example : calculateSat [(10, 12), (20, 30)] 0 5 = .ok 23 := by decide
+/-- the hypothesis is needed -/
+example : calculateSat [(10, 12)] 0 2 = .panic "calculate_sat: unreachable!()" := by decide
+
+/-! ### non-vacuity -/
+
+/-- a three-block chain: block 1 holds a transaction that spends the genesis coinbase, carries an
+envelope and a runestone with an (unnamed) etching, a premine, an edict and a pointer; block 2
+spends one of its outputs again with a mint and a split edict -/
+def exampleChain : List Block :=
+  let cb (txid : Nat) (v : Nat) : Tx :=
+    ⟨txid, [⟨OutPoint.null, false, none, []⟩], [⟨v, false, []⟩], [], none, 100⟩
+  let env : Envelope := ⟨0, 0, false, false, false, false, false, false, false, false, none, []⟩
+  let etching : Etching := ⟨some 2, some 1000, none, none, none, some ⟨some 10, some 5, none, none, none, none⟩, false⟩
+  [ ⟨0, 0, 11, 0, [cb 1 5000000000]⟩,
+    ⟨1, 1, 12, 0, [cb 2 5000000500,
+      ⟨3, [⟨⟨1, 0⟩, true, some 0, [[1, 2]]⟩], [⟨4999999000, false, []⟩, ⟨0, true, []⟩, ⟨500, false, []⟩], [env],
+        some (.runestone [⟨⟨0, 0⟩, 300, 2⟩, ⟨⟨0, 0⟩, 0, 3⟩] (some etching) none (some 0)), 200⟩]⟩,
+    ⟨2, 2, 13, 0, [cb 4 5000000000,
+      ⟨5, [⟨⟨3, 2⟩, false, some 1, []⟩], [⟨250, false, []⟩, ⟨250, false, []⟩], [],
+        some (.runestone [⟨⟨1, 1⟩, 7, 2⟩] none (some ⟨1, 1⟩) none), 150⟩]⟩ ]
+
+def runesOnlyCfg : Cfg := ⟨false, false, false, false, true, 0, 0, 0⟩
+
+/-- the hypothesis of the C16 theorems is satisfiable by a chain with an inscription and runestones -/
+theorem c16_validChain_nonvacuous : Valid.validChain exampleChain = true := by decide
+
+example : runesOnlyCfg.runesOnly := ⟨rfl, rfl, rfl⟩
+
+/-- … and the model indexes it (runes on) without failing -/
+example : (run runesOnlyCfg exampleChain).isOk = true := by decide
+
+/-- every transaction of the example satisfies the per-transaction hypothesis -/
+example : ∀ b ∈ exampleChain, ∀ tx ∈ b.txs, RuneSafe b.height tx :=
+  validChain_runeSafe exampleChain c16_validChain_nonvacuous
+
+/-- the validity predicate is not trivially true: a double spend, an overspend, an edict beyond
+the outputs and a missing node answer are each rejected -/
+example : Valid.validChain (exampleChain ++ [⟨3, 3, 14, 0,
+    [⟨6, [⟨OutPoint.null, false, none, []⟩], [⟨1, false, []⟩], [], none, 100⟩,
+     ⟨7, [⟨⟨3, 2⟩, false, some 1, []⟩], [], [], none, 100⟩]⟩]) = false := by decide
+example : Valid.validChain [⟨0, 0, 11, 0,
+    [⟨1, [⟨OutPoint.null, false, none, []⟩], [⟨5000000001, false, []⟩], [], none, 100⟩]⟩] = false := by decide
+example : Valid.validChain [⟨0, 0, 11, 0,
+    [⟨1, [⟨OutPoint.null, false, none, []⟩], [⟨1, false, []⟩], [],
+      some (.runestone [⟨⟨0, 0⟩, 1, 2⟩] none none none), 100⟩]⟩] = false := by decide
 
 end Ord.Index
